@@ -39,6 +39,9 @@ def run(ctx) -> None:
     shapes.cli_option_rule(ctx, "R9", ["--major", "--minor", "--patch", "--tag-num", "--pin-increments", "--pin-date", "--tag", "--date", "--set-version"])
     ctx.rule("R10", "calendar parts 'taken from the given date': an unusable --date (or --date together with --pin-date) is fatal, not merely logged")
     shapes.errors_are_fatal(ctx, "R10", "cli._validate_date", 2)
+    ctx.rule("R11", "parts not addressed by a flag are unchanged / TAG carried over: the reader hands every captured non-calendar value (and the other tag form) to the bump unchanged (C02's reader rule)")
+    from checks.c02 import reader_fold_rule
+    reader_fold_rule(ctx, "R11")
     ctx.rule("R8", "calendar parts 'taken from the given date': both calendar producers bind each field to its strftime directive, quarter = ((month-1)//3)+1")
     from sa.report import run_prerequisite
     run_prerequisite(ctx, "C17", ("R1", "R2", "R3"), "R7")
